@@ -58,6 +58,8 @@ def decorate(case, k, rng, cfg=None):
     mode, gen, rules = cfg if cfg else (rng.choice(MODES), rng.choice(GENERATORS), 1 if rng.random() < 0.35 else 0)
     c.update({"mode": mode, "generator": gen, "rules": rules, "ext": rng.choice(["lua", "luau"]), "dataext": rng.choice(DATAEXT),
               "sub": 1 if case["n"] == 4 and rng.random() < 0.3 else 0, "sp0": rng.randrange(2)})
+    # ROOT layout: the modules sit at the very root of the resource tree (no parent directory), the entry in src/
+    c["root"] = 1 if c["sub"] == 0 and rng.random() < 0.25 else 0
     return c
 
 
